@@ -193,15 +193,24 @@ Definition batch_one_hot_callable (model : list (list Qc) -> pred) (bs : option 
 (* ------------------------------------------------------------------ what `inputs` is when the operator receives it
    predictions_one_hot_callable calls inputs.numpy(): only tf tensors have that method.
    operator_batching: with a batch size the operator receives the tf tensors produced by
-   tf.data.Dataset.from_tensor_slices((inputs, targets)).batch(b), whatever was handed in; with batch_size=None it
-   receives the caller's own object.  Explainers sanitize with tensor_sanitize (tf tensors); metrics
-   (metrics/base.py: numpy_sanitize) hold NumPy arrays. *)
+   tf.data.Dataset.from_tensor_slices((inputs, targets)).batch(b), whatever was handed in.  With batch_size=None
+     - code as found:   results = operator(model, inputs, targets)            (the caller's own object)
+     - current code:    results = operator(model, tf.convert_to_tensor(inputs), tf.convert_to_tensor(targets))
+   Explainers sanitize with tensor_sanitize (tf tensors); metrics (metrics/base.py: numpy_sanitize) hold NumPy arrays.
+   [batch_one_hot_callable_on] is the current code, [batch_one_hot_callable_on_orig] the code as found. *)
 Inductive container := TfTensor | NdArray.
 Definition has_numpy_method (k : container) : bool := match k with TfTensor => true | NdArray => false end.
 Definition one_hot_callable_on (k : container) (model : list (list Qc) -> pred) (inputs targets : list (list Qc))
   : option (list Qc) :=
   if has_numpy_method k then one_hot_callable model inputs targets else None.        (* None = AttributeError *)
+Definition convert_to_tensor (k : container) : container := TfTensor.
 Definition batch_one_hot_callable_on (k : container) (model : list (list Qc) -> pred) (bs : option nat)
+  (inputs targets : list (list Qc)) : option (list Qc) :=
+  match bs with
+  | None => one_hot_callable_on (convert_to_tensor k) model inputs targets
+  | Some b => batch_one_hot_callable model (Some b) inputs targets
+  end.
+Definition batch_one_hot_callable_on_orig (k : container) (model : list (list Qc) -> pred) (bs : option nat)
   (inputs targets : list (list Qc)) : option (list Qc) :=
   match bs with
   | None => one_hot_callable_on k model inputs targets
